@@ -111,6 +111,21 @@ fn check_card(rep: &mut Rep, i: u8, seqs: &[Vec<u8>], words_seen: &mut std::coll
         if m != 0 {
             for j in 0..52u8 {
                 rep.evaluations += 1;
+                // ... and that is what the crate's own sort does with it: the marked word ahead of the unmarked
+                // card, whichever slot it started in (the priority the marks exist to give)
+                for pair in [[marked, model::word(j)], [model::word(j), marked]] {
+                    let (s, _, ip) = crate::props::crate_sort_both(&pair);
+                    rep.evaluations += 2;
+                    if s != [marked, model::word(j)] || ip != [marked, model::word(j)] {
+                        rep.violation(
+                            "a marked word sorts ahead of every unmarked card (the sorting priority the marks exist to give)",
+                            "Two::sort / sort_in_place",
+                            Input::Words(pair.to_vec()),
+                            format!("{:08X?}", [marked, model::word(j)]),
+                            format!("sort {:08X?} / sort_in_place {:08X?}", s, ip),
+                        );
+                    }
+                }
                 if !(marked > model::word(j)) {
                     rep.violation("every marked word is numerically greater than every unmarked card", "integer order", inp(), format!("> {:#010x}", model::word(j)), format!("{:#010x}", marked));
                 }
@@ -145,6 +160,51 @@ pub fn run(ctx: &Ctx) -> Rep {
     });
     if let Err(msg) = r {
         rep.violation("panic", "multiples flags", Input::None, "normal return".into(), msg);
+    }
+    // the same priority through the sorts of the larger hands: hands of 3..7 words drawn from the cards of one or
+    // two ranks with seeded marks (marked and unmarked copies of the same rank side by side) must come out in
+    // descending numeric order, copy and in place
+    {
+        let mut rng = drive::Rng::new(ctx.seed, 0xC20_5027);
+        let rounds = if ctx.smoke() { 3 } else { 400 };
+        let mut sorted_hands = 0u64;
+        for r in 0..13u8 {
+            for _ in 0..rounds {
+                let r2 = rng.below(13) as u8;
+                let n = 3 + rng.below(5) as usize;
+                let w: Vec<u32> = (0..n)
+                    .map(|_| {
+                        let rank = if rng.chance(2, 3) { r } else { r2 };
+                        let c = model::word(model::idx(rank, rng.below(4) as u8));
+                        if rng.chance(1, 2) {
+                            c | ((1 + rng.below(7) as u32) << 29)
+                        } else {
+                            c
+                        }
+                    })
+                    .collect();
+                let mut want = w.clone();
+                want.sort_unstable_by(|a, b| b.cmp(a));
+                let res = drive::guard(|| crate::props::crate_sort_both(&w));
+                rep.evaluations += 2;
+                sorted_hands += 1;
+                match res {
+                    Ok((s, _, ip)) => {
+                        if s != want || ip != want {
+                            rep.violation(
+                                "marked words sort ahead of unmarked cards, quads above trips above pair (the sorting priority the marks exist to give)",
+                                "sort / sort_in_place",
+                                Input::Words(w.clone()),
+                                format!("{:08X?}", want),
+                                format!("sort {:08X?} / sort_in_place {:08X?}", s, ip),
+                            );
+                        }
+                    }
+                    Err(m) => rep.violation("panic", "sort", Input::Words(w.clone()), "normal return".into(), m),
+                }
+            }
+        }
+        rep.add("hands_of_marked_and_unmarked_same_rank_cards_sorted", sorted_hands);
     }
     rep.add("mark_sequences_per_card(length 0..=4 over pair/trips/quads, every order)", seqs.len() as u64);
     rep.add("distinct_marked_words_produced", words.len() as u64);
